@@ -14,7 +14,7 @@
    and concurrent executions: a schedule is a list of (thread, operation); the
    shared state is threaded through the schedule in order, the thread-local
    state (the stack of open iterators) per thread. *)
-From Coq Require Import List Arith Bool ZArith Lia.
+From Coq Require Import List Arith Bool ZArith.
 From SV Require Import C04.Heap C04.Model C04.Spec C05.Footprint.
 Import ListNotations.
 
